@@ -231,3 +231,14 @@ def witness_empty_fence():
     with MarkdownRenderer() as r:
         t = r.render(Document('```\n```\n'))
     return mistletoe.markdown(t) != mistletoe.markdown('```\n```\n'), "Markdown round trip of an empty fence gives %r" % t
+
+
+def witness_blank_indented_line():
+    """(fixed) a whitespace-only line indented by four or more spaces started an indented code block; the round trip lost it"""
+    import mistletoe
+    from mistletoe import Document
+    s = 'a\n\n    \n\nb\n'
+    with MarkdownRenderer() as r:
+        t = r.render(Document(s))
+    h1, h2 = mistletoe.markdown(s), mistletoe.markdown(t)
+    return h1 != h2 or '<pre>' in h1, "markdown(%r) = %r; after a Markdown round trip (%r): %r" % (s, h1, t, h2)
